@@ -6,11 +6,17 @@
 
 package memberlist
 
+// awareness: score stays in [0, max-1] (max = AwarenessMaxMultiplier, assumed >= 1 where the bound matters)
+//@ lock awareness.RWMutex recv a
+//@   protects awareness.score
+//@   inv AW [C19]: a.max >= 1 ==> 0 <= a.score && a.score <= a.max - 1
 //@ func (*awareness).ApplyDelta(a, delta)
 //@   safety [C19]
+//@   monitor awareness.RWMutex
 //@   requires nonnil: a != nil
 //@   assigns awareness.score
 //@   ensures clamp [C19]: a.max >= 1 ==> a.score >= 0 && a.score <= a.max - 1
+//@   ensures exact [C19]: a.max >= 1 && old(a.score) >= 0 && old(a.score) <= a.max - 1 && delta >= 0 - 1000000 && delta <= 1000000 ==> a.score == ite(old(a.score) + delta < 0, 0, ite(old(a.score) + delta > a.max - 1, a.max - 1, old(a.score) + delta))
 
 //@ func pkcs7decode(buf, bs)
 //@   safety [C13]
@@ -50,7 +56,9 @@ package memberlist
 //@ pure sameList(m *Memberlist) bool := m.nodes == old(m.nodes) && (forall i int :: 0 <= i && i < len(m.nodes) ==> m.nodes[i] == old(m.nodes[i]))
 //@ pure sameView(m *Memberlist) bool := (forall x string :: sameRec(m, x)) && sameList(m) && sameTimers(m)
 //@ pure quiet() bool := $ev == old($ev) && $bq == old($bq) && $cf == old($cf)
-//@ pure mlOK(m *Memberlist) bool := m != nil && m.config != nil && m.awareness != nil && m.nodeMap != nil && m.nodeTimers != nil && m.broadcasts != nil && m.logger != nil
+// cfgOK: configuration validity that Create does not enforce and the code relies on (assumed, DESIGN §7.5)
+//@ pure cfgOK(c *Config) bool := c.IndirectChecks >= 0 && c.GossipNodes >= 0 && c.SuspicionMaxTimeoutMult >= 1 && c.ProbeInterval >= 0 && c.SuspicionMult >= 0
+//@ pure mlOK(m *Memberlist) bool := m != nil && m.config != nil && cfgOK(m.config) && m.awareness != nil && m.nodeMap != nil && m.nodeTimers != nil && m.broadcasts != nil && m.logger != nil
 
 //@ atomic Memberlist.incarnation rely nondecreasing
 //@ atomic Memberlist.leave rely monotone01
@@ -60,7 +68,7 @@ package memberlist
 //@ lock Memberlist.nodeLock recv m strict
 //@   protects Memberlist.nodes, nodeState.*, elems *nodeState, map map[string]*nodeState, map map[string]*suspicion, suspicion.n, map map[string]struct{}
 //@   assume size: len(m.nodes) < 2147483647   // fewer than 2^31 members (randomOffset takes uint32(len))
-//@   assume cfg: m.config.SuspicionMaxTimeoutMult >= 1 && m.config.ProbeInterval >= 0 && m.config.SuspicionMult >= 0   // configuration validity, not enforced by Create
+//@   assume cfg: m.config.SuspicionMaxTimeoutMult >= 1 && m.config.ProbeInterval >= 0 && m.config.SuspicionMult >= 0 && m.config.IndirectChecks >= 0 && m.config.GossipNodes >= 0   // configuration validity, not enforced by Create
 //@   inv N1 [C01,C07]: forall n string :: has(m.nodeMap, n) ==> allocated(m.nodeMap[n]) && m.nodeMap[n].Name == n
 //@   inv N2 [C07]: forall i int :: 0 <= i && i < len(m.nodes) ==> allocated(m.nodes[i]) && has(m.nodeMap, m.nodes[i].Name) && m.nodeMap[m.nodes[i].Name] == m.nodes[i]
 //@   inv N3 [C07]: forall i int, j int :: 0 <= i && i < j && j < len(m.nodes) ==> m.nodes[i] != m.nodes[j]
@@ -322,12 +330,19 @@ package memberlist
 //@ func (*Memberlist).invokeAckHandler(m, ack, timestamp)
 //@   safety [C13,C19]
 //@   modular
+//@   monitor Memberlist.ackLock
 //@   requires ok: mlNet(m)
+//@   ensures removes-own [C19]: !has(m.ackHandlers, ack.SeqNo)
+//@   ensures frame [C19]: forall q uint32 :: q != ack.SeqNo ==> has(m.ackHandlers, q) == old(has(m.ackHandlers, q)) && m.ackHandlers[q] == old(m.ackHandlers[q])
+//@   at call dyn:m.ackHandlers[ack.SeqNo].ackFn: assert invokes-registered [C19]: old(has(m.ackHandlers, ack.SeqNo)) && ah == old(m.ackHandlers[ack.SeqNo])
 
 //@ func (*Memberlist).invokeNackHandler(m, nack)
 //@   safety [C13,C19]
 //@   modular
+//@   monitor Memberlist.ackLock
 //@   requires ok: mlNet(m)
+//@   ensures keeps [C19]: forall q uint32 :: has(m.ackHandlers, q) == old(has(m.ackHandlers, q)) && m.ackHandlers[q] == old(m.ackHandlers[q])
+//@   at call dyn:m.ackHandlers[nack.SeqNo].nackFn: assert invokes-registered [C19]: old(has(m.ackHandlers, nack.SeqNo)) && ah == old(m.ackHandlers[nack.SeqNo])
 
 //@ func (*Memberlist).setAckHandler(m, seqNo, ackFn, timeout)
 //@   safety [C13,C19]
@@ -353,11 +368,27 @@ package memberlist
 //@   safety [C13,C19]
 //@   modular
 //@   requires ok: mlNet(m) && from != nil
+//@   at call (*Memberlist).encodeAndSendMsg: assert ack-echoes-seq [C19]: msgType == ackRespMsg && typeIs(msg, *ackResp) && unbox(msg, *ackResp).SeqNo == p.SeqNo && (p.Node == "" || p.Node == m.config.Name)
 
+//@ ghost $relaySeq int
 //@ func (*Memberlist).handleIndirectPing(m, buf, from)
 //@   safety [C13,C19]
 //@   modular
 //@   requires ok: mlNet(m) && from != nil
+//@   at call (*Memberlist).nextSeqNo: set $relaySeq := res
+//@   at call (*Memberlist).setAckHandler: assert relay-registers-fresh-seq [C19]: seqNo == $relaySeq
+//@   at call (*Memberlist).encodeAndSendMsg: assert relay-pings-with-fresh-seq [C19]: msgType == pingMsg && typeIs(msg, *ping) && unbox(msg, *ping).SeqNo == $relaySeq && unbox(msg, *ping).Node == ind.Node
+
+// relay closures: success is relayed under the requester's number; the nack carries the requester's number
+//@ func (*Memberlist).handleIndirectPing$1(payload, timestamp)
+//@   safety [C13,C19]
+//@   requires ok: mlNet(m)
+//@   requires once: cancelCh != nil && !closed(cancelCh)   // the handler is removed from ackHandlers before it is invoked, so it runs at most once (invokeAckHandler/removes-own)
+//@   at call (*Memberlist).encodeAndSendMsg: assert relay-ack-requester-seq [C19]: msgType == ackRespMsg && typeIs(msg, *ackResp) && unbox(msg, *ackResp).SeqNo == ind.SeqNo
+//@ func (*Memberlist).handleIndirectPing$2()
+//@   safety [C13,C19]
+//@   requires ok: mlNet(m)
+//@   at call (*Memberlist).encodeAndSendMsg: assert nack-requester-seq [C19]: msgType == nackRespMsg && typeIs(msg, *nackResp) && unbox(msg, *nackResp).SeqNo == ind.SeqNo
 
 //@ func (*Memberlist).handleAck(m, buf, from, timestamp)
 //@   safety [C13,C19]
@@ -656,3 +687,30 @@ package memberlist
 //@   requires ok: mlOK(m) && s != nil
 //@   at call (*Memberlist).deadNode: assert stale-guard [C03,C06]: old(has(m.nodeMap, s.Node)) && state == old(m.nodeMap[s.Node]) && old(state.State) == StateSuspect && old(state.StateChange) == changeTime
 //@   at call (*Memberlist).deadNode: assert claim [C03,C06]: d.Incarnation == old(state.Incarnation) && d.Node == old(state.Name) && d.From == m.config.Name
+
+// ---------------------------------------------------------------------
+// C19: acknowledgement correlation, relay, awareness
+// ---------------------------------------------------------------------
+//@ ghost $sendErr int
+//@ ghost $probeSeq int
+// probeNode: the probe's own sequence number is the key that is registered and the one pinged; the health
+// score may only improve (delta -1) if the ping really left; the target is suspected by us, at the incarnation we probed
+//@ func (*Memberlist).probeNode(m, node)
+//@   safety [C19,C20]
+//@   requires ok: mlNet(m) && node != nil
+//@   requires ghostinit: $sendErr != 0
+//@   at call (*Memberlist).nextSeqNo: set $probeSeq := res
+//@   at call (*Memberlist).setProbeChannels: assert registers-own-seq [C19]: seqNo == $probeSeq && seqNo == ping.SeqNo
+//@   at call (*Memberlist).encodeAndSendMsg #1: set $sendErr := res
+//@   at call (*Memberlist).rawSendMsgPacket: set $sendErr := res
+//@   at call (*Memberlist).suspectNode: assert suspect-own-evidence [C03,C19]: s.Node == node.Name && s.Incarnation == node.Incarnation && s.From == m.config.Name
+//@   ensures health-falls-only-after-send [C19]: *awarenessDelta == 0 - 1 ==> $sendErr == 0
+//@   ensures health-delta-range [C19]: *awarenessDelta >= 0 - 1
+
+//@ func (*awareness).ScaleTimeout(a, timeout)
+//@   safety [C03,C19]
+//@   requires nn: a != nil
+//@   ensures bound [C03]: a.max >= 1 && timeout >= 0 ==> result >= timeout
+//@ func (*awareness).GetHealthScore(a)
+//@   safety [C19,C20]
+//@   requires nn: a != nil
